@@ -2,6 +2,7 @@ package main
 
 import (
 	"fmt"
+	"go/token"
 	"strings"
 )
 
@@ -106,6 +107,34 @@ func installCtx(m *Machine) {
 	}
 	I["(time.Time).Sub"] = func(r *Run, fr *Frame, a []Value) Value {
 		return r.numBinop(subTok, a[0].(Struct)[1].(Num), a[1].(Struct)[1].(Num))
+	}
+	I["(time.Time).Add"] = func(r *Run, fr *Frame, a []Value) Value {
+		t := a[0].(Struct)
+		return Struct{t[0], r.numBinop(token.ADD, t[1].(Num), a[1].(Num)), t[2]}
+	}
+	cmpT := func(op token.Token) func(r *Run, fr *Frame, a []Value) Value {
+		return func(r *Run, fr *Frame, a []Value) Value {
+			return r.numBinop(op, a[0].(Struct)[1].(Num), a[1].(Struct)[1].(Num))
+		}
+	}
+	I["(time.Time).After"] = cmpT(token.GTR)
+	I["(time.Time).Before"] = cmpT(token.LSS)
+	I["(time.Time).Equal"] = cmpT(token.EQL)
+	I["time.Unix"] = func(r *Run, fr *Frame, a []Value) Value {
+		sec, ns := a[0].(Num), a[1].(Num)
+		if sec.T != nil || sec.C != 0 {
+			secNs := r.numBinop(token.MUL, sec, Num{W: 64, Signed: true, C: 1000000000}).(Num)
+			ns = r.numBinop(token.ADD, secNs, ns).(Num)
+		}
+		return Struct{Num{W: 64}, ns, Ptr(nil)}
+	}
+	I["(time.Duration).String"] = func(r *Run, fr *Frame, a []Value) Value { return Str("<duration>") }
+	I["(time.Duration).Seconds"] = func(r *Run, fr *Frame, a []Value) Value {
+		d := a[0].(Num)
+		if d.T != nil {
+			return FSym{T: r.TT.mk("fp.div RNE", -64, 0, "", r.TT.mk("(_ to_fp 11 53) RNE", -64, 0, "", d.T), r.fterm(float64(1e9)))}
+		}
+		return float64(int64(d.C)) / 1e9
 	}
 	I["(time.Time).Unix"] = func(r *Run, fr *Frame, a []Value) Value {
 		n := a[0].(Struct)[1].(Num)
